@@ -1,4 +1,5 @@
 import VOPyVerif.Proofs.RegionUpdate
+import VOPyVerif.Proofs.InvRegion
 /-!
 # C14 — displayed confidence regions are exactly the model's prediction scaled
 
@@ -308,5 +309,114 @@ example :
     (({ lower := [-1, 0], upper := [1, 2], iter := true } : Rect).intersect [-3, 0] [-1, 2]).lower = [-3, 0] ∧
     (({ lower := [-1, 0], upper := [1, 2], iter := true } : Rect).intersect [-3, 1] [0, 5]) =
       { lower := [-1, 1], upper := [0, 2], iter := true } := by decide +kernel
+
+/-! ## INVARIANCES — the displayed-region law is offset-free
+
+About the executable `checkIntersection` / `Rect.intersect` / `Rect.update` / `updLoop` / `update`
+the driver ops `rect` / `seq` (and C09's `intersect`) evaluate (helpers: `Proofs/InvRegion.lean`).
+`Rect.translate r t`, `Ell.translate e t`, `Region.translate R t`, `Pred.translate p t` move the
+bounds / the centre / the predicted mean by `t` and leave everything else (widths, covariance,
+`intersect_iteratively`) alone.  No `l ≤ u` hypothesis.  These equalities are what the harness'
+large-offset histories rely on: an intersection test or a bound computed with a relative tolerance
+would not commute with the offset. -/
+
+section Invariance
+
+/-- **The intersection test depends on differences only**: moving both rectangles by `t` changes
+neither `hyperrectangle_check_intersection` (overlap and disjointness are preserved, touching
+included) nor its `±τ` band versions (so neither the driver's "borderline" flag). -/
+theorem checkIntersection_translate (l1 u1 l2 u2 t : Vec)
+    (h1 : l1.length = t.length) (h2 : u1.length = t.length) (h3 : l2.length = t.length)
+    (h4 : u2.length = t.length) :
+    checkIntersection (vadd l1 t) (vadd u1 t) (vadd l2 t) (vadd u2 t) = checkIntersection l1 u1 l2 u2 ∧
+    ∀ τ : ℚ, borderline τ (vadd l1 t) (vadd u1 t) (vadd l2 t) (vadd u2 t) = borderline τ l1 u1 l2 u2 := by
+  refine ⟨Region.checkIntersection_translate l1 u1 l2 u2 t h1 h2 h3 h4, fun τ => ?_⟩
+  unfold borderline
+  rw [checkIntersectionSlack_translate τ l1 u1 l2 u2 t h1 h2 h3 h4,
+    checkIntersectionSlack_translate (-τ) l1 u1 l2 u2 t h1 h2 h3 h4]
+
+/-- **`intersect` commutes with translation**: the intersection of the translated rectangles is the
+translated intersection (componentwise `max`/`min` when they overlap, the new rectangle otherwise —
+the same branch is taken before and after the move). -/
+theorem intersect_translate (r : Rect) (l u t : Vec)
+    (h1 : r.lower.length = t.length) (h2 : r.upper.length = t.length) (h3 : l.length = t.length)
+    (h4 : u.length = t.length) :
+    (r.translate t).intersect (vadd l t) (vadd u t) = (r.intersect l u).translate t :=
+  Region.intersect_translate r l u t h1 h2 h3 h4
+
+/-- **One `update` commutes with translation**, for rectangles (with or without
+`intersect_iteratively`) and ellipsoids: old region and predicted mean moved by `t`, same std /
+covariance / scale ⇒ the new region is the old answer moved by `t`, and the same exception is raised
+when one is raised. -/
+theorem region_update_translate (R : Region) (p : Pred) (scale t : Vec) (hR : R.dim t.length)
+    (hm : p.mean.length = t.length) :
+    (R.translate t).update (p.translate t) scale = (R.update p scale).map (fun R' => R'.translate t) :=
+  Region.region_update_translate R p scale t hR hm
+
+/-- **The whole design-space `update` commutes with translation**: all regions and all predicted means
+moved by `t` (rectangles and means of dimension `|t|`), same scale and index list ⇒ every displayed
+region afterwards is the original one moved by `t`, with the same exception (if any) at the same
+point of the loop. -/
+theorem update_translate (regs : List Region) (table : List Pred) (sc : Scale) (idx : List Nat) (t : Vec)
+    (hregs : ∀ R ∈ regs, R.dim t.length) (htab : ∀ p ∈ table, p.mean.length = t.length) :
+    update (regs.map (·.translate t)) (table.map (·.translate t)) sc idx =
+      ((update regs table sc idx).1.map (·.translate t), (update regs table sc idx).2) := by
+  unfold update
+  cases hs : scaleRows sc idx.length with
+  | none => rfl
+  | some rows =>
+    have hl : ∀ (idx : List Nat), lookupAll (table.map (·.translate t)) idx =
+        (lookupAll table idx).map (List.map (·.translate t)) := by
+      intro idx
+      induction idx with
+      | nil => rfl
+      | cons i is ih =>
+        simp only [lookupAll, List.getElem?_map]
+        cases table[i]? with
+        | none => rfl
+        | some p =>
+          simp only [Option.map_some, ih]
+          cases lookupAll table is <;> rfl
+    simp only [hl]
+    cases hp : lookupAll table idx with
+    | none => rfl
+    | some preds =>
+      simp only [Option.map_some]
+      have hz : ∀ (idx : List Nat) (preds : List Pred) (rows : List Vec),
+          idx.zip ((preds.map (·.translate t)).zip rows) =
+            (idx.zip (preds.zip rows)).map fun x => (x.1, x.2.1.translate t, x.2.2) := by
+        intro idx
+        induction idx with
+        | nil => intros; rfl
+        | cons i is ih =>
+          intro preds rows
+          cases preds with
+          | nil => simp
+          | cons q qs =>
+            cases rows with
+            | nil => simp
+            | cons r rs => simp [ih qs rs]
+      rw [hz idx preds rows]
+      apply updLoop_translate t _ regs hregs
+      intro x hx
+      have h1 : x.2.1 ∈ preds := (List.of_mem_zip (List.of_mem_zip hx).2).1
+      exact htab _ (lookupAll_mem idx table preds hp _ h1)
+
+/-- non-vacuity, large offset and tiny gap: `[0,1]²` and `[1 − 2⁻²⁰, 2]²` overlap, `[1, 2]²` only
+touches (counts as disjoint); the same after the offset `(2²⁰, −2²⁰)`, and the intersection moves
+with it -/
+example :
+    checkIntersection [0, 0] [1, 1] [1 - 1/1048576, 1 - 1/1048576] [2, 2] = true ∧
+    checkIntersection (vadd [0, 0] [1048576, -1048576]) (vadd [1, 1] [1048576, -1048576])
+      (vadd [1 - 1/1048576, 1 - 1/1048576] [1048576, -1048576]) (vadd [2, 2] [1048576, -1048576]) = true ∧
+    checkIntersection [0, 0] [1, 1] [1, 1] [2, 2] = false ∧
+    checkIntersection (vadd [0, 0] [1048576, -1048576]) (vadd [1, 1] [1048576, -1048576])
+      (vadd [1, 1] [1048576, -1048576]) (vadd [2, 2] [1048576, -1048576]) = false ∧
+    (Rect.intersect { lower := vadd [0, 0] [1048576, -1048576], upper := vadd [1, 1] [1048576, -1048576], iter := true }
+      (vadd [1 - 1/1048576, 1 - 1/1048576] [1048576, -1048576]) (vadd [2, 2] [1048576, -1048576])).lower =
+      [1048577 - 1/1048576, -1048575 - 1/1048576] := by
+  decide +kernel
+
+end Invariance
 
 end VOPy.C14
